@@ -137,6 +137,8 @@ def run(m, tier):
     results.append(r11)
     from rules import reader_interp
     results.append(reader_interp.errline_rule(m, "C07.R12", tier))
+    from rules import prog_rules
+    results.append(prog_rules.errline_rule(m, "C07.R13", tier))
     expl = ("Decides narrow structural clauses of C07: wherever a message quotes a source line it is source_lines[linecount - 1] of the "
             "same reader whose linecount is printed; every FortranSyntaxError is raised with the function's reader parameter; the "
             "physical line counter is moved by exactly one per line taken/given back on every path and item spans are tied to it "
